@@ -1198,6 +1198,27 @@ def r_relaunch(e, R):
             "no tracker is ever launched for a process that has none", e.loc(er, ft.ast))
     R.check(all(resets.values()), "R-RELAUNCH", "ensure_running: fd and pid are reset before the relaunch", er.short, "self._fd = None; self._pid = None",
             "a failed relaunch leaves the dead tracker's fd/pid installed", e.loc(er, t.ast))
+    # lending the launcher's stderr to the tracker is optional (the handler says so: it passes): `sys.stderr` is whatever object the
+    # application installed, its fileno() can raise anything (ValueError on a closed / detached stream, UnsupportedOperation,
+    # AttributeError on None): none of that may prevent the (re)launch
+    for n_ in g.nodes:
+        for c in calls_in(n_):
+            if isinstance(c.func, ast.Attribute) and c.func.attr == "fileno" and norm(c.func.value).endswith("stderr"):
+                R.check(_broadly_protected(e, c, er.node), "R-RELAUNCH", "ensure_running: a failing sys.stderr.fileno() cannot prevent the launch", er.short,
+                        norm(c), "`sys.stderr.fileno()` is not inside a try with a broad handler: a closed / detached / replaced stderr raises (ValueError: I/O "
+                        "operation on closed file) out of ensure_running; when that happens at a relaunch `_fd` is already None, so every later tracked "
+                        "operation of the process fails the same way and the tree stays without a tracker", e.loc(er, c))
+    # ... and at once: between closing the old descriptor and clearing the field that holds its *number* nothing may run that the
+    # user can make raise (warnings.warn under -W error / filterwarnings=error): ensure_running would exit with `_fd` naming a closed
+    # descriptor, which the next probe writes to -- by then possibly the application's own file
+    warns_ = lambda x: any(norm(c.func) == "warnings.warn" for c in calls_in(x))
+    for cn in closes:
+        stale = g.find_path(cn, warns_, avoid=resets["_fd"], use_exc=False)
+        R.check(stale is None, "R-RELAUNCH", "ensure_running: the closed descriptor's number is cleared before anything that can be made to raise", er.short,
+                "os.close(self._fd); ...; self._fd = None; warnings.warn(...)", "warnings.warn runs between os.close(self._fd) and `self._fd = None`: with warnings "
+                "configured as errors it raises, ensure_running exits with `_fd` holding the number of a closed descriptor and no tracker; once the application "
+                "opens another file that number is reused, the liveness probe succeeds on it and every later REGISTER / UNREGISTER is written into that file: "
+                "nothing is tracked any more (semaphores of a killed process stay in /dev/shm)", e.loc(er, cn.ast), g.fmt_path(stale) if stale else None)
     for n in [x for v in resets.values() for x in v]:
         R.check(g.path_exists(n, lambda x: x in sp, use_exc=False) and
                 g.find_path(n, lambda x: x is g.exit, avoid=sp, use_exc=False) is None, "R-RELAUNCH",
